@@ -17,6 +17,7 @@ def run(ctx):
     c11.hashed_subpackets_all_fed(ctx, P)
     sig.text_mode_selection(ctx, P)
     sig.salt_fed_at_every_hasher(ctx, P)
+    sig.salt_length_checked_where_hashed(ctx, P)
     c11.salt_tables(ctx, P)
     c14.hasher_rules(ctx, P)
     c14.reader_rules(ctx, P)
